@@ -50,6 +50,7 @@ func checkC16(c *core.Ctx) error {
 	c.Explanation = "One clause of C16 is decided: the closed-form scalar estimators (normal, exponential, Poisson, geometric, negative binomial with fixed r) return a stationary point of the weighted log-likelihood of their own family. " +
 		"The estimator code (constructor, Initialize, NewObservation, updateEstimate) is interpreted symbolically for a generic weighted data set of two observations and a pool of one thread; the resulting estimate, a term over the observations and log-weights, is substituted into the symbolic gradient of the weighted log-likelihood built from the family's log-density (the C14 reference table), which must vanish identically. " +
 		"Nothing else of C16 (EM monotonicity, likelihood reported to hooks, numeric estimators, parameter bounds) is decided."
+	c.Rule("C16.R1b", "a configured parameter bound replaces the estimate exactly on the paths on which the unconstrained estimate of that parameter is beyond it", 4)
 	c.Rule("C16.R1", "the estimate computed by updateEstimate from the accumulated weighted statistics makes the gradient of the weighted log-likelihood of the estimator's own family vanish identically (interior case)", 4)
 	p := c.Pkg("statistics/scalarEstimator")
 	if p == nil {
@@ -63,6 +64,9 @@ func checkC16(c *core.Ctx) error {
 		checkEstimator(c, p, d, e)
 	}
 	c.Analysed["closed_form_estimators"] = len(estTable)
+	// ---- R3 the mixture EM step is the textbook E-step / M-step
+	c.Rule("C16.R3", "the mixture EM step, interpreted symbolically for two components: the returned likelihood is the data log-likelihood of the model of the iteration, the responsibilities are the component posteriors (times observation weight and multiplicity), the new weights are the normalised responsibility sums", 20)
+	checkEmStep(c, false)
 	// ---- R2 the EM / Baum-Welch drivers report and test the likelihood returned by the step of the same iteration
 	c.Rule("C16.R2", "the EM and Baum-Welch drivers hand their hooks the likelihood returned by Step in the same iteration and its difference to the previous one, test convergence on that difference, and only then remember it", 2)
 	if g := c.Pkg("statistics/generic"); g != nil {
@@ -284,6 +288,160 @@ func checkEstimator(c *core.Ctx, p *packages.Package, d *declIndex, e estEntry) 
 		}
 	}
 	c.Check(nInterior > 0, "C16.R1", cons, "updateEstimate has an interior path", ue.Pos(), "no path of updateEstimate yields an estimate that is not capped or rejected")
+	checkBounds(c, cons, e, upaths, ue)
+}
+
+// checkBounds (C16.R1b): a configured bound (minimum standard deviation, maximum rate) replaces the estimate exactly
+// when the unconstrained estimate of that parameter lies beyond it. Every branch condition of updateEstimate that
+// mentions the bound must compare it with the unconstrained estimate of the same parameter (both sides possibly under
+// one monotone map: identity, square, logarithm), the capped paths are those on which the estimate is beyond the bound,
+// and the interior paths those on which it is not.
+func checkBounds(c *core.Ctx, cons string, e estEntry, upaths []*vn.Path, ue *ast.FuncDecl) {
+	for _, b := range e.bounds {
+		bsym := sym.Sym(b + "_start")
+		lower := strings.HasSuffix(b, "Min")
+		par := strings.TrimSuffix(strings.TrimSuffix(b, "Min"), "Max")
+		fld, ok := e.fields[par]
+		if !ok {
+			c.Unknown("C16.R1b", cons, "bound "+b+" belongs to a parameter", ue.Pos(), "no parameter "+par)
+			continue
+		}
+		value := func(pa *vn.Path) *sym.Term {
+			if pa.Panic || pa.RecvObj == nil {
+				return nil
+			}
+			if _, isErr := pa.Ret.(*vn.ErrVal); isErr {
+				return nil
+			}
+			dobj, ok := pa.RecvObj.Fields[e.dist].(*vn.StructVal)
+			if !ok {
+				return nil
+			}
+			l, ok := dobj.Fields[fld].(*vn.Loc)
+			if !ok {
+				return nil
+			}
+			return l.Val
+		}
+		// the unconstrained estimates (interior paths)
+		var free []*sym.Term
+		for _, pa := range upaths {
+			if v := value(pa); v != nil && !v.DependsOn(sym.SymAtom(b+"_start")) {
+				dup := false
+				for _, f := range free {
+					dup = dup || sym.Equal(f, v)
+				}
+				if !dup {
+					free = append(free, v)
+				}
+			}
+		}
+		maps := []func(t *sym.Term) *sym.Term{
+			func(t *sym.Term) *sym.Term { return t },
+			func(t *sym.Term) *sym.Term {
+				// the square of a square root is its radicand (not folded by the normal form when the radicand is a quotient)
+				for _, at := range t.Atoms() {
+					if at.Kind == "pow" && len(at.Args) == 2 {
+						if e, ok := at.Args[1].IsConst(); ok && e.Cmp(big.NewRat(1, 2)) == 0 && sym.Equal(t, sym.Fn("pow", at.Args[0], at.Args[1])) {
+							return at.Args[0]
+						}
+					}
+				}
+				return sym.Mul(t, t)
+			},
+			func(t *sym.Term) *sym.Term { return sym.Fn("log", t) },
+		}
+		// beyond(cond, truth): +1 the condition says the estimate is beyond the bound, -1 it says it is not, 0 unrelated, 2 malformed
+		beyond := func(cv vn.CondV) (int, string) {
+			if cv.C.Op != "lt" || cv.C.A == nil || cv.C.B == nil {
+				return 0, ""
+			}
+			ba := cv.C.A.DependsOn(sym.SymAtom(b + "_start"))
+			bb := cv.C.B.DependsOn(sym.SymAtom(b + "_start"))
+			if !ba && !bb {
+				return 0, ""
+			}
+			if ba && bb {
+				return 2, "compares two terms that both depend on the bound"
+			}
+			X, B := cv.C.A, cv.C.B // X < B
+			estLess := true
+			if ba {
+				X, B = cv.C.B, cv.C.A // B < X
+				estLess = false
+			}
+			if _, isConst := X.IsConst(); isConst {
+				return 0, "" // validity test of the distribution's constructor on the capped value (bound against a constant)
+			}
+			okForm := false
+			for _, g := range maps {
+				if !sym.Equal(B, g(bsym)) {
+					continue
+				}
+				for _, f := range free {
+					if sym.Equal(X, g(f)) || sym.Equal(sym.LogExpand(X), sym.LogExpand(g(f))) {
+						okForm = true
+					}
+				}
+			}
+			if !okForm && os.Getenv("C16DEBUG") != "" {
+				for _, f := range free {
+					fmt.Fprintln(os.Stderr, "FREE", f, "\nX", X)
+					for gi, g := range maps {
+						fmt.Fprintln(os.Stderr, " map", gi, "B ok:", sym.Equal(B, g(bsym)), "X ok:", sym.Equal(X, g(f)), "g(f)=", shortTerm(g(f)))
+					}
+				}
+			}
+			if !okForm {
+				return 2, fmt.Sprintf("compares %s with %s, which is not the unconstrained estimate of %s against the bound (under identity, square or logarithm)", shortTerm(X), shortTerm(B), par)
+			}
+			// estLess && V: est < b ; estLess && !V: est >= b ; !estLess && V: b < est ; !estLess && !V: est <= b
+			isBelow := (estLess && cv.V) || (!estLess && !cv.V) // est < b or est <= b
+			if lower == isBelow {
+				return 1, ""
+			}
+			return -1, ""
+		}
+		n := 0
+		for _, pa := range upaths {
+			v := value(pa)
+			if v == nil {
+				continue
+			}
+			capped := v.DependsOn(sym.SymAtom(b + "_start"))
+			says, nan := 0, false
+			bad := ""
+			for _, cv := range pa.Conds {
+				if cv.C.Op == "isnan" && cv.V {
+					nan = true
+				}
+				k, why := beyond(cv)
+				switch k {
+				case 2:
+					bad = why
+				case 1, -1:
+					says = k
+				}
+			}
+			n++
+			what := fmt.Sprintf("bound %s is applied exactly when the estimate of %s is beyond it [%s]", b, par, shortConds(pa.CondString()))
+			switch {
+			case bad != "":
+				c.Fail("C16.R1b", cons, what, ue.Pos(), "a branch condition of updateEstimate "+bad+": the configured bound is not applied to the parameter it bounds")
+			case capped && !(says == 1 || nan):
+				c.Fail("C16.R1b", cons, what, ue.Pos(), fmt.Sprintf("%s is replaced by the bound %s on a path that does not establish that the unconstrained estimate is beyond the bound", par, b))
+			case capped && !sym.Equal(v, bsym):
+				c.Fail("C16.R1b", cons, what, ue.Pos(), fmt.Sprintf("on the capped path %s is set to %s instead of the bound %s", par, shortTerm(v), b))
+			case !capped && says == 1:
+				c.Fail("C16.R1b", cons, what, ue.Pos(), fmt.Sprintf("the unconstrained estimate of %s is returned on a path on which it is beyond the bound %s", par, b))
+			case !capped && says == 0:
+				c.Fail("C16.R1b", cons, what, ue.Pos(), fmt.Sprintf("the unconstrained estimate of %s is returned on a path that never compares it with the bound %s", par, b))
+			default:
+				c.OK("C16.R1b", cons, what, ue.Pos(), "")
+			}
+		}
+		c.Check(n >= 2, "C16.R1b", cons, "bound "+b+" has a capped and an interior path", ue.Pos(), "fewer than two paths reach the bound test")
+	}
 }
 
 func shortTerm(t *sym.Term) string {
